@@ -722,6 +722,12 @@ def is_pow2(x):
     return x > 0 and math.frexp(x)[0] == 0.5
 
 
+def _not_tiny(v):
+    """exactly 0 or at least 1e-6 in size: products of a few generated numbers neither underflow nor
+    get absorbed to nothing (an underflowed 0.5*x0*x2 would make a false line 'hold' exactly)"""
+    return v == 0 or abs(v) >= 1e-6
+
+
 def coefficients(kind='mixed', allow_zero=True):
     """strategy for one coefficient.  kind: 'dyadic' (+- powers of two, exact arithmetic),
     'short' (short decimals and small integers), 'scale' (1e-6..1e6), 'float'
@@ -746,7 +752,7 @@ def constants(kind='mixed'):
     if kind == 'short':
         return st.one_of(st.sampled_from(DYADIC_CONSTS), st.sampled_from([0.1, -0.3, 0.05, 10.0, 100, 0, 1, -2, 4]))
     return st.one_of(st.sampled_from(DYADIC_CONSTS), st.sampled_from([0.1, -0.3, 0.05, 1e-5, 1e6, -1e6, 1e-6, 100, 0, 4]),
-                     st.floats(-1e6, 1e6, allow_subnormal=False), st.floats(-10.0, 10.0, allow_subnormal=False))
+                     st.floats(-1e6, 1e6).filter(_not_tiny), st.floats(-10.0, 10.0).filter(_not_tiny))
 
 
 # --------------------------------------------------------------------------- tree strategies
@@ -847,8 +853,8 @@ def point_values(kind='mixed'):
     small = st.sampled_from([0.0, 1.0, -1.0, 2.0, -2.0, 3.0, -3.0, 0.5, -0.5, 4.0, 1.5, -1.5, 0.25, 8.0, -4.0, 6.0, 5.0])
     if kind == 'dyadic':
         return st.one_of(small, st.integers(-64, 64).map(lambda i: i / 8.0))
-    return st.one_of(small, st.integers(-10, 10).map(float), st.floats(-10.0, 10.0, allow_subnormal=False),
-                     st.floats(-1e3, 1e3, allow_subnormal=False), st.floats(-1e6, 1e6, allow_subnormal=False))
+    return st.one_of(small, st.integers(-10, 10).map(float), st.floats(-10.0, 10.0).filter(_not_tiny),
+                     st.floats(-1e3, 1e3).filter(_not_tiny), st.floats(-1e6, 1e6).filter(_not_tiny))
 
 
 def points(nvars, kind='mixed'):
